@@ -132,6 +132,9 @@ func getSigBlock(f *os.File) (*zipslicer.Directory, []byte, error) {
 		return inz, nil, nil
 	}
 	// read signature block
+	if sigLoc < 0 || sigLoc > inz.DirLoc || inz.DirLoc-sigLoc < int64(8+8+len(sigMagic)) {
+		return nil, nil, errMalformed
+	}
 	blob := make([]byte, inz.DirLoc-sigLoc)
 	if _, err := f.ReadAt(blob, sigLoc); err != nil {
 		return nil, nil, err
